@@ -357,6 +357,32 @@ theorem good_permissionCallback {k} (a b c) : Good k (permissionCallback a b c) 
   unfold permissionCallback; dm_good
 macro_rules | `(tactic| dm_prim) => `(tactic| with_reducible exact good_permissionCallback _ _ _)
 
+/-- `Good` only depends on the runs -/
+theorem Good.congr {α k} {m m' : DM α} (h : ∀ s, run m s = run m' s) (hm : Good k m') : Good k m where
+  mono := fun s hs => by rw [h]; exact hm.mono s hs
+  sim := fun s hs hc => by rw [h, h]; exact hm.sim s hs hc
+
+/-- `openRejects` with its `set { s with … }` written as a `modify` -/
+def openRejects' (rej : Bytes) : DM Unit := do
+  let s ← get
+  if s.rejWritten.contains rej then
+    if !(← fsExists rej) then opCreat rej
+  else
+    modify fun s => { s with rejWritten := s.rejWritten ++ [rej] }
+    opCreat rej
+
+theorem good_openRejects {k} (rej) : Good k (openRejects rej) := by
+  refine Good.congr (m' := openRejects' rej) (fun s => ?_) (by unfold openRejects'; dm_good)
+  unfold openRejects openRejects'
+  simp only [run_bind, run_get]
+  split
+  · rfl
+  · simp only [run_bind, run_set, run_modify]
+macro_rules | `(tactic| dm_prim) => `(tactic| with_reducible exact good_openRejects _)
+
+theorem good_writeRejects {k} (rej b) : Good k (writeRejects rej b) := by unfold writeRejects; dm_good
+macro_rules | `(tactic| dm_prim) => `(tactic| with_reducible exact good_writeRejects _ _)
+
 theorem good_refuseToPatch {k} (a b c) : Good k (refuseToPatch a b c) := by
   unfold refuseToPatch; dm_good
 macro_rules | `(tactic| dm_prim) => `(tactic| with_reducible exact good_refuseToPatch _ _ _)
@@ -365,11 +391,6 @@ theorem good_guessFilepath {k} (a b) : Good k (guessFilepath a b) := by
   unfold guessFilepath; dm_good
 macro_rules | `(tactic| dm_prim) => `(tactic| with_reducible exact good_guessFilepath _ _)
 
-
-/-- `Good` only depends on the runs -/
-theorem Good.congr {α k} {m m' : DM α} (h : ∀ s, run m s = run m' s) (hm : Good k m') : Good k m where
-  mono := fun s hs => by rw [h]; exact hm.mono s hs
-  sim := fun s hs hc => by rw [h, h]; exact hm.sim s hs hc
 
 theorem run_readTty (s) : run readTty s =
     match s.tty with
@@ -408,6 +429,7 @@ def makeBackupFor' (o : Options) (p : Bytes) : DM Unit := do
   let s ← get
   if !s.backedUp.contains (backupName o p) then
     modify fun s => { s with backedUp := s.backedUp ++ [backupName o p] }
+    ensureParentDirs (backupName o p)
     if (← fsExists p) then opRename p (backupName o p) else opCreat (backupName o p)
 
 theorem good_makeBackupFor {k} (o p) : Good k (makeBackupFor o p) := by
